@@ -26,14 +26,22 @@ Theorem C11_allowed_host_iff : forall a hs via,
 Proof. exact allowed_host_iff. Qed.
 Print Assumptions C11_allowed_host_iff.
 
-(* IP literals are compared as whole addresses *)
+(* IP literals - what netip.ParseAddr accepts, modelled by parse_addr_ok - are compared as whole
+   addresses *)
+Theorem C11_domain_ip_whole : forall a,
+  wf_authority a = true -> ip_authority a = true ->
+  get_domain (render_authority a) = to_lower (host_text (a_host a)).
+Proof. exact domain_ip_whole. Qed.
+Print Assumptions C11_domain_ip_whole.
+
 Theorem C11_domain_v6_whole : forall a s,
-  a_host a = HV6 s -> wf_authority a = true -> get_domain (render_authority a) = to_lower s.
+  a_host a = HV6 s -> wf_authority a = true -> is_ip_literal (to_lower s) = true ->
+  get_domain (render_authority a) = to_lower s.
 Proof. exact domain_v6. Qed.
 Print Assumptions C11_domain_v6_whole.
 
 Theorem C11_domain_v4_whole : forall a s,
-  a_host a = HName s -> wf_authority a = true -> is_ipv4 (to_lower s) = true ->
+  a_host a = HName s -> wf_authority a = true -> is_ip_literal (to_lower s) = true ->
   get_domain (render_authority a) = to_lower s.
 Proof. exact domain_v4. Qed.
 Print Assumptions C11_domain_v4_whole.
@@ -47,15 +55,29 @@ Theorem C11_same_domain_ip_iff : forall a b via,
 Proof. exact same_domain_ip_iff. Qed.
 Print Assumptions C11_same_domain_ip_iff.
 
-Theorem C11_domain_name_labels : forall a s,
-  a_host a = HName s -> wf_authority a = true -> is_ip_literal (to_lower s) = false ->
+Theorem C11_domain_name_labels : forall a,
+  wf_authority a = true -> ip_authority a = false ->
   get_domain (render_authority a) =
-    match split_byte dot (to_lower s) with
+    match split_byte dot (to_lower (host_text (a_host a))) with
     | _ :: ((_ :: _ :: _) as rest) => join_with [dot] rest
-    | _ => to_lower s
+    | _ => to_lower (host_text (a_host a))
     end.
 Proof. exact domain_name_labels. Qed.
 Print Assumptions C11_domain_name_labels.
+
+(* "IP literal" is netip.ParseAddr's verdict: boundary literals kept checked against the model of
+   its algorithm (the same strings are compared with the real netip in the harness) *)
+Theorem C11_parse_addr_examples :
+  map (fun t => parse_addr_ok (bs t))
+      ["::1"; "::"; "2001:db8::1%eth0"; "fe80::1%"; "::ffff:1.2.3.4"; "1:2:3:4:5:6:7:8"; "1:2:3:4:5:6:7::";
+       "1:2:3:4:5:6:7:8:9"; "1::2::3"; "12345::"; "1:2:3:4:5:6:1.2.3.4"; "1:2:3:4:5:6:7:1.2.3.4";
+       "::ffff:1.2.3.256"; ":::"; "1:2:3:4:5:6:7::8"; "1.2.3.4"; "1.2.3"; "01.2.3.4"; "256.1.1.1"; "1.2.3.4.";
+       "a:b.c.d"; "example.com"; ""]%string =
+  [true; true; true; false; true; true; true;
+   false; false; false; true; false;
+   false; false; false; true; false; false; false; false;
+   false; false; false].
+Proof. exact parse_addr_examples. Qed.
 
 (* hop n+1 is refused iff n >= limit; NoRedirect refuses the first hop *)
 Theorem C11_max_redirects_exact : forall n t via,
@@ -296,7 +318,11 @@ Example C11_nonvacuous :
   wf_authority {| a_host := HName (bs "WWW.Example.COM."); a_port := Some [] |} = true /\
   get_hostname (bs "[2001:DB8::1%eth0]:8443") = bs "2001:db8::1%eth0" /\
   get_domain (bs "a.b.example.com:80") = bs "b.example.com" /\
-  get_domain (bs "10.2.3.4:80") = bs "10.2.3.4".
+  get_domain (bs "10.2.3.4:80") = bs "10.2.3.4" /\
+  ip_authority {| a_host := HV6 (bs "2001:DB8::1%eth0"); a_port := Some (bs "8443") |} = true /\
+  ip_authority {| a_host := HV6 (bs "a:b.c.d"); a_port := None |} = false /\
+  get_domain (bs "[a:b.c.d]") = bs "c.d" /\
+  get_domain (bs "256.1.1.1") = bs "1.1.1".
 Proof. vm_compute. repeat split. Qed.
 
 (* non-vacuity of the client theorems: A refuses redirects, B := A.Clone(), A is opened up;
